@@ -542,11 +542,15 @@ class TimeParameterType(ParameterType, metaclass=ABCMeta):
             coefficients = self.encoding.default_calibrator.coefficients
             scale = [c.coefficient for c in coefficients if c.exponent == 1]
             offset = [c.coefficient for c in coefficients if c.exponent == 0]
+            # The scale and offset attributes can only express offset + scale * raw (and a missing scale reads back as 1).
+            # Any other polynomial is carried by the DefaultCalibrator of the data encoding alone, which the reader
+            # falls back to when neither attribute is present.
+            is_linear = len(scale) == 1 and len(offset) <= 1 and len(coefficients) == len(scale) + len(offset)
 
-            if scale:
+            if is_linear:
                 encoding_attrib["scale"] = str(scale[0])
 
-            if offset:
+            if is_linear and offset:
                 encoding_attrib["offset"] = str(offset[0])
 
         element.append(
